@@ -83,6 +83,7 @@ class ThreadWorld(World):
         self.fs.install_open(self.patch, self.lib)
         self.fs.install_stat(self.patch)
         self.fs.install_rename(self.patch)
+        self.fs.install_fd(self.patch)
         self._build_pool()
 
     def close(self):
@@ -139,7 +140,11 @@ class ThreadWorld(World):
         self.repodocs = {"noarch/repodata.json": repodoc,
                          "linux-64/repodata.json": dict(repodoc, info={"subdir": "linux-64"},
                                                         packages={"z-9-0.tar.bz2": {"name": "z", "version": "9", "build": "h1"}})}
-        P = self.pool = {"pa": pa, "pb": pb, "Gb": Gb, "k12": [keys.pub[1], keys.pub[2]], "kdup": [keys.pub[0], keys.pub[1], keys.pub[0]],
+        unsorted = {"zeta": {"y": 1, "b": [3, {"q": 1, "a": 2}], "a": {"n": 0, "c": None}}, "alpha": [1, 2], "mid": {"z": "z", "k": "k", "a": "a"}}
+        with self.out:
+            Eu = S.wrap_as_signable(unsorted)
+            S.sign_signable(Eu, keys.priv[0])
+        P = self.pool = {"pa": pa, "pb": pb, "Gb": Gb, "unsorted": unsorted, "Eu": Eu, "k12": [keys.pub[1], keys.pub[2]], "kdup": [keys.pub[0], keys.pub[1], keys.pub[0]],
                          "k10": [keys.pub[1], keys.pub[0]], "k21": [keys.pub[2], keys.pub[1]], "Ea": Ea, "Eb": Eb, "Ex": Ex, "Ec": Ec, "Ej": Ej, "r1": r1, "r2": r2, "r2bad": r2bad,
                          "km": km, "G": G, "k01": [keys.pub[0], keys.pub[1]], "k0": [keys.pub[0]], "k2": [keys.pub[2]],
                          "k012": list(keys.pub), "dels": r1["signed"]["delegations"]}
@@ -169,6 +174,8 @@ class ThreadWorld(World):
             ("verify_gpg_signature", ("ent:Gb:1", "=" + k.pub[1], "bytes:pa"), {}), ("verify_gpg_signature", ("ent:Gb:2", "=" + k.pub[1], "bytes:pb"), {}),
             ("build_root", ("k01", 2, "k2"), {}), ("build_root", ("kdup", 1, "k2"), {}), ("build_root", ("k21", 1, "kdup"), {}),
             ("build_root", ("k10", 2, "k0"), {}),
+            ("canonserialize", ("unsorted",), {}), ("canonserialize", ("unsorted",), {}), ("canonserialize", ("r2",), {}), ("canonserialize", ("km",), {}),
+            ("sign_private", ("unsorted", 1), {}), ("verify_signable", ("Eu", "k0", 1), {}),
             ("sign_repo", ("noarch/repodata.json", 0), {}), ("sign_repo", ("linux-64/repodata.json", 0), {}),
             ("sign_repo", ("noarch/repodata.json", 1), {}), ("sign_repo", ("linux-64/repodata.json", 2), {}),
         ]
@@ -247,6 +254,7 @@ class ThreadWorld(World):
         # half of the runs have a theme: most calls of every thread come from one family, so that the same code is
         # likely to be on several threads' stacks at once
         families = {"storage": ("sign_repo",), "gpg": ("verify_gpg_signature", "verify_root"), "builder": ("build_root", "checkformat_list_of_hex_keys"),
+                    "canon": ("canonserialize", "sign_private", "wrap_as_signable"),
                     "tally": ("verify_signable",), "deleg": ("verify_delegation",), "sign": ("sign_private", "wrap_as_signable", "canonserialize")}
         theme = rng.choice(sorted(families)) if rng.random() < 0.5 else None
         themed = [i for i, c in enumerate(self.catalogue) if theme and c[0] in families[theme]]
